@@ -1487,7 +1487,7 @@ def r14_6(prog, rep, rid='R14.6'):
     # (1) the loop covers every thing of the message ---------------------------
     def from_msg(e, depth=0):
         """'all' | 'some' | None: e denotes all things of the message"""
-        if depth > 4:
+        if depth > 10:
             return None
         t = unparse(e)
         if t in ("%s.get('arg')" % msg, "%s['arg']" % msg):
@@ -1797,6 +1797,23 @@ MUTATIONS = [
     dict(name='R14.4 cancel request mapped to FAILED', rules=('R14.4',), edits=[
         (_A, "        elif self._final_cause == 'cancel'   : state = rps.CANCELED",
              "        elif self._final_cause == 'cancel'   : state = rps.FAILED")]),
+    dict(name='R14.6 bulk fix reverted: loop left on the result of _update_pilot', rules=('R14.6',), edits=[
+        (_P, "                self._update_pilot(thing, publish=False)\n",
+             "                if not self._update_pilot(thing, publish=False):\n                    return False\n")]),
+    dict(name='R14.6 result kept in a local, then tested', rules=('R14.6',), edits=[
+        (_P, "                self._update_pilot(thing, publish=False)\n",
+             "                ok = self._update_pilot(thing, publish=False)\n                if not ok:\n                    break\n")]),
+    dict(name='R14.6 break after the first pilot update', rules=('R14.6',), edits=[
+        (_P, "                self._update_pilot(thing, publish=False)\n",
+             "                self._update_pilot(thing, publish=False)\n                break\n")]),
+    dict(name='R14.6 only final states are applied', rules=('R14.6',), edits=[
+        (_P, "                self._update_pilot(thing, publish=False)\n",
+             "                if thing['state'] in rps.FINAL:\n                    self._update_pilot(thing, publish=False)\n")]),
+    dict(name='R14.6 only the first thing of the message is looked at', rules=('R14.6',), edits=[
+        (_P, "        for thing in things:\n\n            if 'type' in thing and thing['type'] == 'pilot':",
+             "        for thing in things[:1]:\n\n            if 'type' in thing and thing['type'] == 'pilot':")]),
+    dict(name='R14.6 type test inverted', rules=('R14.6',), edits=[
+        (_P, "            if 'type' in thing and thing['type'] == 'pilot':", "            if 'type' in thing and thing['type'] != 'pilot':")]),
     dict(name='R14.5 agent writes a differently named file', rules=('R14.5',), edits=[
         (_A, "ru.ru_open('./killme.signal', 'w')", "ru.ru_open('./kill.signal', 'w')")]),
     dict(name='R14.5 bootstrapper reads another file', rules=('R14.5',), edits=[
@@ -1828,6 +1845,16 @@ SILENT = [
     dict(name='signal file written with an f-string, no ./ prefix', edits=[
         (_A, "        with ru.ru_open('./killme.signal', 'w') as fout:\n            fout.write('%s\\n' % state)\n",
              "        with ru.ru_open('killme.signal', 'w') as fout:\n            fout.write(f'{state}\\n')\n")]),
+    dict(name='pilot things filtered by a comprehension, then a plain loop', edits=[
+        (_P, "        for thing in things:\n\n            if 'type' in thing and thing['type'] == 'pilot':\n\n                self._log.debug('state push: %s: %s', thing['uid'],\n                                thing['state'])\n\n                # we got the state update from the state callback - don't\n                # publish it again\n                self._update_pilot(thing, publish=False)\n",
+             "        pilots = [t for t in things if t.get('type') == 'pilot']\n        for thing in pilots:\n            self._update_pilot(thing, publish=False)\n")]),
+    dict(name='non-pilot things skipped with continue', edits=[
+        (_P, "        for thing in things:\n\n            if 'type' in thing and thing['type'] == 'pilot':\n\n                self._log.debug('state push: %s: %s', thing['uid'],\n                                thing['state'])\n\n                # we got the state update from the state callback - don't\n                # publish it again\n                self._update_pilot(thing, publish=False)\n",
+             "        for thing in things:\n\n            if thing.get('type') != 'pilot':\n                continue\n\n            self._log.debug('state push: %s: %s', thing['uid'], thing['state'])\n            self._update_pilot(thing, publish=False)\n")]),
+    dict(name='things normalised with ru.as_list, termination checked per thing after the update', edits=[
+        (_P, "        if isinstance(arg, list): things =  arg\n        else                    : things = [arg]\n", "        things = ru.as_list(arg)\n"),
+        (_P, "                self._update_pilot(thing, publish=False)\n",
+             "                self._update_pilot(thing, publish=False)\n                if self._terminate.is_set():\n                    return False\n")]),
     dict(name='unknown-pilot guard as positive nesting', edits=[
         (_P, "            if pid not in self._pilots:\n                return   # this is not an error\n\n            # only update on state changes\n            current = self._pilots[pid].state\n            target  = pilot_dict['state']\n\n            # always update the pilot instance, even if state didn't change\n            if current == target:\n                self._pilots[pid]._update(pilot_dict)\n                return\n",
              "            if pid not in self._pilots:\n                return   # this is not an error\n\n            # only update on state changes\n            current = self._pilots[pid].state\n            target  = pilot_dict['state']\n\n            # always update the pilot instance, even if state didn't change\n            if current != target:\n                pass\n            else:\n                self._pilots[pid]._update(pilot_dict)\n                return\n")]),
